@@ -827,7 +827,10 @@ class Evaluator(object):
             except AnalysisError:
                 b0 = None
             if isinstance(b0, K) and isinstance(b0.v, str) and all(isinstance(a, K) for a in args) and not kwargs:
-                r0 = getattr(b0.v, f.attr)(*[a.v for a in args])      # constant folding on literals
+                try:
+                    r0 = getattr(b0.v, f.attr)(*[a.v for a in args])      # constant folding on literals
+                except (ValueError, TypeError, IndexError, KeyError) as ex_:
+                    raise _Raise(type(ex_).__name__)       # e.g. '{0:d}'.format(1.5): the program raises here too
                 return K(tuple(r0) if isinstance(r0, list) else r0)
         if isinstance(f, ast.Attribute) and f.attr == "format":
             return Sym("formatted-string", truthy=True, pytype=str)
